@@ -54,7 +54,8 @@ def dump (s : St) : String :=
     "rows=" ++ ";".intercalate (s.rows.map (fun (k, f, w) => s!"{k}:" ++ showRow f ++ ":" ++ showRow w)),
     "occ=" ++ ";".intercalate (s.occ.map showInts),
     s!"rng={s.entropy}:{s.spawned}:{s.mainDraws}",
-    "lockedord=" ++ showNats s.lockedOrd ]
+    "lockedord=" ++ showNats s.lockedOrd,
+    "spawnedrec=" ++ (match spawnedKey s with | none => "-" | some k => toString k) ]
 
 /-- parse `k` length-prefixed lists -/
 def takeLists {α : Type} (p : String → Option α) : Nat → List String → Option (List (List α))
@@ -171,6 +172,14 @@ def handle (d : DState) (toks : List String) : DState × String :=
       let tbl := assignEngineStreams d.eng ps
       ({ d with eng := tbl },
         ";".intercalate (tbl.map (fun (e, x) => s!"{e.1}:{e.2}={showStream x}")))
+  -- restorectr <k|->  : `set_rgen` at a restart, after the recorded jobs are known
+  | ["restorectr", tok] =>
+    let rec? : Option (Option Nat) := if tok = "-" then some none else (parseNat? tok).map some
+    match rec? with
+    | some r =>
+      let sp := r.getD (d.s.cstep + d.s.locked0.length)
+      ({ d with s := { d.s with spawned := sp } }, toString sp)
+    | none => (d, "bad-op")
   | ["prob"] => (d, showMat (prob d.s))
   | ["dump"] => (d, dump d.s)
   | ["persist"] =>
